@@ -27,6 +27,13 @@ NOTES = {
  "C18-d": "missed at first: no array of 23-25 elements in the shared model; added",
  "C19-d": "missed at first: exact rendering only to depth 8; added `deep-chains`",
  "C20-d": "missed at first: no chain beyond 10^4 levels; chains up to 10^5 in the corpus",
+ "C02-e": "missed at first: no check looked at the iterators' size_hint; lower bound must be backed by the remaining input",
+ "C05-e": "missed at first: integers were always decoded at offset 0 of their own buffer; `in_context` places them behind six kinds of prefix",
+ "C08-e": "missed at first: six hand-picked attribute key orders; now every order the macros accept",
+ "C09-e": "missed at first (and inconclusive in between): the affected definitions were only reachable through universe roots that did not use them; every definition is now a check root",
+ "C11-e": "missed at first: tokenizers were built from fresh decoders only; now also from decoders standing behind j items",
+ "C16-e": "missed at first: no limit near u32::MAX on the async side",
+ "C19-e": "missed at first: ill-formed input was only checked for totality and size; a definite head declaring more than follows must be reported inline",
  "C20-a": "also reported by the no-alloc half of C06; needed the tightened difference rule r1 (a no-alloc skip may differ only by the documented refusal, never by position)",
 }
 rows = []
